@@ -346,13 +346,17 @@ def select__child_path(self: XPathToken, context: ta.ContextType = None) \
         if isinstance(context.root, DocumentNode):
             yield context.root
     elif len(self) == 1:
+        item = context.item
         if isinstance(context.document, DocumentNode):
             context.item = context.document
         elif context.root is None or isinstance(context.root.parent, ElementNode):
             return  # No root or a rooted subtree -> document root produce []
         else:
             context.item = context.root  # A fragment or a schema node
-        yield from self[0].select(context)
+        try:
+            yield from self[0].select(context)
+        finally:
+            context.item = item  # the focus of the enclosing expression is not changed
     else:
         items: set[ta.ItemType] = set()
         nodes: list[XPathNode] = []
@@ -411,6 +415,7 @@ def select__descendant_path(self: XPathToken, context: ta.ContextType = None) \
         yield from nodes if ordered else sorted(nodes, key=node_position)
 
     else:
+        item = context.item
         if isinstance(context.document, DocumentNode):
             context.item = context.document
         elif context.root is None or isinstance(context.root.parent, ElementNode):
@@ -420,17 +425,20 @@ def select__descendant_path(self: XPathToken, context: ta.ContextType = None) \
 
         items = set()
         atomic_values = []
-        for _ in context.iter_descendants():
-            for result in self[0].select(context):
-                if not isinstance(result, XPathNode):
-                    atomic_values.append(result)
-                elif result in items:
-                    pass
-                elif isinstance(result, ElementNode):
-                    if result.value not in items:
+        try:
+            for _ in context.iter_descendants():
+                for result in self[0].select(context):
+                    if not isinstance(result, XPathNode):
+                        atomic_values.append(result)
+                    elif result in items:
+                        pass
+                    elif isinstance(result, ElementNode):
+                        if result.value not in items:
+                            items.add(result)
+                    else:
                         items.add(result)
-                else:
-                    items.add(result)
+        finally:
+            context.item = item  # the focus of the enclosing expression is not changed
 
         if atomic_values:
             if items:
